@@ -408,6 +408,31 @@ theorem handler_answers (h : Handler) (i p : Nat) (d : Dial) (hw : h.wedged = fa
 example : (hstep true true {} (.call 4 7 .blackhole)).2 = [.failed 4] ∧
     (hstep true true { clients := [7] } (.call 4 7 .blackhole)).2 = [.handed 4 7] := ⟨rfl, rfl⟩
 
+/-! ### 5b. replies whose signature does not verify (review 5-D #3; `net` acts `S`, `B`) -/
+
+/-- regenerated facts the `net` driver is instantiated with: decodeBytes verifies every package under the
+handshake key before it hands it on, and decodePipe verifies it again, each dropping the frame on failure —
+for replies and requests alike. (Both are guard checks on the text of the functions; what actually ties reply
+verification to the code is the correspondence run: acts `S<m>`/`B<m>`, oracle `unsigned-reply-accepted`.) -/
+theorem c17_reply_verified : (Gen.decodeVerifiesFirst || Gen.decodePipeVerifiesAgain) = true := by decide
+
+/-- with verification a reply in a package whose signature does not verify is no event at all: the scripted
+peer's "bad reply, then the good one" is the good reply, "bad reply only" is a dropped request. -/
+theorem bad_signature_reply_is_no_event (j g nonce : Nat) :
+    actEvents true j g nonce .badGood = actEvents true j g nonce .reply ∧
+    actEvents true j g nonce .badOnly = actEvents true j g nonce .drop := ⟨rfl, rfl⟩
+
+example : connOutcomes true [(0, .badGood), (1, .badOnly), (2, .reply)] = [(0, "ok"), (1, "err"), (2, "ok")] := by
+  decide
+
+/-- … and what the model says when replies are NOT verified: the caller is handed the payload that came in
+the badly signed package (own + 2), in both scenarios — what the oracle `unsigned-reply-accepted` looks for. -/
+theorem unverified_reply_would_be_returned :
+    connOutcomes false [(0, .badGood), (1, .badOnly)] =
+      [(0, s!"ok-wrong:{ownPayload 0 + 2}"), (1, s!"ok-wrong:{ownPayload 1 + 2}")] := by decide
+
+example : ownPayload 1 + 2 = 12 := rfl
+
 /-! ### non-vacuity: concrete histories -/
 
 /-- three requests; replies arrive out of order, one twice, one with an unknown nonce; one request is
